@@ -87,13 +87,21 @@ Definition dict_sat (P : name -> name -> Prop) (t : dict) : Prop := forall k vs 
 Lemma string_eqb_eq a b : String.eqb a b = true -> a = b.
 Proof. apply String.eqb_eq. Qed.
 
+Lemma set_union_in vs : forall old x, In x (set_union old vs) -> In x old \/ In x vs.
+Proof.
+  induction vs as [| v vs IH]; intros old x H; simpl in *; [auto |].
+  apply IH in H. destruct H as [H | H]; [| auto].
+  destruct (mem v old); [auto |]. apply in_app_or in H. destruct H as [H | [-> | []]]; auto.
+Qed.
+
 Lemma dict_add_sat P t k v : dict_sat P t -> P k v -> dict_sat P (dict_add t k v).
 Proof.
-  intros Ht Hp. induction t as [| [k' vs] r IH]; simpl.
+  intros Ht Hp. induction t as [| [k' vs] r IH]; cbn [dict_add].
   - intros k0 vs0 v0 [E | []] Hv. inversion E; subst. destruct Hv as [-> | []]. exact Hp.
   - destruct (String.eqb k' k) eqn:E.
     + apply string_eqb_eq in E. subst k'. intros k0 vs0 v0 [X | X] Hv.
-      * inversion X; subst. apply in_app_or in Hv. destruct Hv as [Hv | [-> | []]]; [eapply Ht; [left; reflexivity | exact Hv] | exact Hp].
+      * inversion X; subst. assert (Hv' : In v0 vs \/ In v0 [v]) by (apply (set_union_in [v] vs v0); exact Hv).
+        destruct Hv' as [Hv' | [-> | []]]; [eapply Ht; [left; reflexivity | exact Hv'] | exact Hp].
       * eapply Ht; [right; exact X | exact Hv].
     + intros k0 vs0 v0 [X | X] Hv.
       * inversion X; subst. eapply Ht; [left; reflexivity | exact Hv].
@@ -112,11 +120,11 @@ Qed.
 
 Lemma dict_extend_sat P t k vs : dict_sat P t -> (forall v, In v vs -> P k v) -> dict_sat P (dict_extend t k vs).
 Proof.
-  intros Ht Hp. induction t as [| [k' old] r IH]; simpl.
-  - intros k0 vs0 v0 [E | []] Hv. inversion E; subst. apply Hp. exact Hv.
+  intros Ht Hp. induction t as [| [k' old] r IH]; cbn [dict_extend].
+  - intros k0 vs0 v0 [E | []] Hv. inversion E; subst. apply set_union_in in Hv. destruct Hv as [[] | Hv]. apply Hp. exact Hv.
   - destruct (String.eqb k' k) eqn:E.
     + apply string_eqb_eq in E. subst k'. intros k0 vs0 v0 [X | X] Hv.
-      * inversion X; subst. apply in_app_or in Hv. destruct Hv as [Hv | Hv]; [eapply Ht; [left; reflexivity | exact Hv] | apply Hp; exact Hv].
+      * inversion X; subst. apply set_union_in in Hv. destruct Hv as [Hv | Hv]; [eapply Ht; [left; reflexivity | exact Hv] | apply Hp; exact Hv].
       * eapply Ht; [right; exact X | exact Hv].
     + intros k0 vs0 v0 [X | X] Hv.
       * inversion X; subst. eapply Ht; [left; reflexivity | exact Hv].
@@ -209,4 +217,17 @@ Proof.
   intros H He Hno. destruct (deps_allowed table compiled src dest) eqn:A; [| reflexivity].
   destruct (deps_allowed_justified table fuel d lines compiled src dest H A) as (ex' & a & b & E & R & M1 & M2).
   assert (ex' = ex) by congruence. subst. exfalso. eapply Hno; eauto.
+Qed.
+
+(* evaluation shortcut used by the correspondence harness: translate the names of the compiled pairs once *)
+Definition precompile (table : list (name * regex)) (compiled : list rule) : list (regex * regex) :=
+  map (fun r => (name_regex table (fst r), name_regex table (snd r))) compiled.
+Definition allowed_precompiled (res : list (regex * regex)) (src dest : list Z) : bool :=
+  existsb (fun r => matches (fst r) src && matches (snd r) (fixed_dest src dest)) res.
+
+Lemma deps_allowed_precompiled table compiled src dest :
+  deps_allowed table compiled src dest = allowed_precompiled (precompile table compiled) src dest.
+Proof.
+  unfold deps_allowed, allowed_precompiled, precompile. induction compiled as [| r c IH]; simpl; [reflexivity |].
+  rewrite IH. reflexivity.
 Qed.
